@@ -35,10 +35,9 @@ def handle : DrvHandler := fun op args =>
       let d := decision (← inOf? i)
       some (ok (Json.mkObj [("fns", strs (d.fns.map fnStr)), ("handlersRun", .bool d.handlersRun),
                             ("delays", .bool d.delays)]))
-  -- `application.apply`: does the cycle end in the sleep-then-touch? [delays, merge, fns]
-  | "C06.sleeps", [d, m, fns] => do
-      let fns ← (← jStrList? fns).mapM fnOf?
-      some (ok (.bool (sleepsAfter (← jBool? d) (← jBool? m) fns)))
+  -- `application.apply`: does the cycle end in the sleep-then-touch? [delays, changed]
+  | "C06.sleeps", [d, c] => do
+      some (ok (.bool (sleepsAfter (← jBool? d) (← jBool? c))))
   -- the JSON-patch step of the LTS on a state built from the observation:
   -- [own, fns, view, marked, accepted] ; accepted = the server's version equals the tested one
   | "C06.patch", [f, fns, view, marked, accepted] => do
